@@ -110,6 +110,10 @@ def body(chk):
     # "failed if a parser error was delivered": the ingester must hand every parser error it consumes to the writers
     from checks import ingest
     ingest.obligations(chk, 'C01')
+    # "every built-in stats pipeline ... every interleaving": a failure must reach the statistics writer that sits BEHIND the
+    # normalizer (Normalize<Summarize<..>>, Libtest) whatever else holds the normalizer's output - Normalize is lossless
+    from checks import c11
+    c11.obligations(chk, 'C01', variants=['basic'])
 
 
 def confirm_hook_retry(chk, o):
